@@ -31,16 +31,18 @@ def canon_part(p):
     if p[0] == 'str':
         return [1, ord(p[1])]
     kind, sharps, o = p
-    assert set(sharps) <= {'#'}
     known = {'sign', 'comma', 'decimal_point', 'real_sharps'}
-    assert set(o) <= known, o
     sign = []
     if 'sign' in o:
         pos, ch = o['sign']
-        assert pos in ('begin', 'end')
-        sign = [[1 if pos == 'end' else 0, ord(ch)]]
-    return [2, len(sharps), sign, 1 if o.get('comma', False) else 0,
-            [o['decimal_point']] if 'decimal_point' in o else [], o['real_sharps']]
+        sign = [[{'begin': 0, 'end': 1}.get(pos, 99), ord(ch)]]
+    out = [2, len(sharps), sign, 1 if o.get('comma', False) else 0,
+           [o['decimal_point']] if 'decimal_point' in o else [], o.get('real_sharps', -1)]
+    # anything the model does not know about makes the result differ from it
+    extra = sorted(set(o) - known)
+    if extra or set(sharps) - {'#'}:
+        out.append(['unmodelled', [ord(ch) for ch in ' '.join(extra)], [ord(ch) for ch in sharps]])
+    return out
 
 
 def fmt_values(case):
